@@ -287,6 +287,80 @@ def parser_half(rep, tier, wd, rng, cases, results):
     return {"parser_expressions": len(runs), "parser_runs": nruns, "parser_accepted_words": nacc, "parser_tampered_runs": ntam}
 
 
+B64STD = b"ABCDEFGHIJKLMNOPQRSTUVWXYZabcdefghijklmnopqrstuvwxyz0123456789+/"
+B64URL = b"ABCDEFGHIJKLMNOPQRSTUVWXYZabcdefghijklmnopqrstuvwxyz0123456789-_"
+
+
+def b64_class(e):
+    """input class of a base64 run, used to key violations (and the recorded known findings)"""
+    s = bytes(e["input"])
+    body = s.rstrip(b"=") if e["padded"] else s
+    if e["var"] and e["a"] > 4 and b"=" in s and len(s) % e["a"] != 0:
+        return "var_padding_not_in_last_chunk"
+    if e["url"] and any(c in b"+/" for c in body) and all(c in B64URL + b"+/" for c in body):
+        return "url_accepts_standard_alphabet"
+    if not e["padded"] and len(body) % 4 == 1 and all(c in (B64URL if e["url"] else B64STD) for c in body):
+        return "unpadded_length_1_mod_4"
+    return "other"
+
+
+def base64_half(rep, tier, wd, rng):
+    import base64 as b64
+    q = tier == "quick"
+    scen = []
+    lens = list(range(0, 17)) + [31, 32, 33, 47, 48, 64] if q else list(range(0, 65))
+    for n in lens:
+        raw = bytes(rng.randrange(256) for _ in range(n))
+        for url in (False, True):
+            enc = (b64.urlsafe_b64encode if url else b64.b64encode)(raw)
+            scen.append({"input": list(enc), "url": url, "padded": True})
+            scen.append({"input": list(enc.rstrip(b"=")), "url": url, "padded": False})
+            if len(enc) <= 32 and (n < 8 or not q):
+                scen.append({"input": list(enc), "url": url, "padded": True, "var": True, "m": 32, "a": 4})
+            # single-character corruptions of a well-formed input
+            if enc and (n <= 6 or not q):
+                for _ in range(2 if q else 6):
+                    i = rng.randrange(len(enc))
+                    bad = bytearray(enc)
+                    bad[i] = rng.choice(b"!=*~ \x00\xff.,") if rng.random() < 0.7 else rng.choice(B64STD if url else B64URL)
+                    scen.append({"input": list(bad), "url": url, "padded": True})
+    # padding forms
+    for s_ in [b"TQ==", b"TQ=", b"TQ", b"T===", b"====", b"=AAA", b"TW=E", b"TWE==", b"TWFu====", b"TWFuTQ==", b"TQ==TWFu"]:
+        for padded in (True, False):
+            if not padded or len(s_) % 4 == 0:
+                scen.append({"input": list(s_), "url": False, "padded": padded})
+    # the recorded known findings
+    scen += [{"input": list(b"TW+/"), "url": True, "padded": True}, {"input": list(b"T"), "url": False, "padded": False},
+             {"input": list(b"TWE="), "url": False, "padded": True, "var": True, "m": 32, "a": 8}]
+    for sc in scen:
+        if not sc.get("var") and rng.random() < (0.05 if q else 0.2):
+            sc.update({"faults": ["plus1", "zero"], "max_index": 10 if q else 30})
+    chunks = [scen[i::vlib.NCPU] for i in range(vlib.NCPU)]
+    jobs = []
+    for i, ch in enumerate(chunks):
+        if ch:
+            cp = os.path.join(wd, f"b64scen_{i}.ndjson")
+            vlib.write_ndjson(cp, ch)
+            jobs.append(["c19", "b64", cp, os.path.join(wd, f"b64_{i}.ndjson")])
+    vlib.run_vh_parallel(jobs, timeout=4 * 3600)
+    row_sets = []
+    for j in jobs:
+        rows = vlib.read_ndjson(j[3])
+        for r in rows:
+            if r["ev"] == "B64" and r.get("value") is None:
+                r["value"] = []
+        row_sets.append(rows)
+    good, rejected, st = vlib.validate_many(row_sets, "Base64.tla", "Base64.cfg", "C19", "b64", max_rejects=12, start_ev="B64")
+    for run_rows, line, e in rejected:
+        rep.violation({"kind": "base64", "cls": b64_class(e), "status": e["status"], "tampered": e["tampered"]},
+                      f"base64{'url' if e['url'] else ''} {'padded' if e['padded'] else 'unpadded'}{' var A=%d' % e['a'] if e['var'] else ''} input={bytes(e['input'])!r} "
+                      f"status={e['status']} out={e['exposed'][len(e['input']):] if not e['var'] else e.get('value')} tamper={e.get('tamper')} ({e['detail'][:60]})",
+                      {"scenario": {"b64": True, "input": e["input"], "url": e["url"], "padded": e["padded"], "var": e["var"], "m": e["m"], "a": e["a"]}})
+    evs = [r for rows in row_sets for r in rows if r["ev"] == "B64"]
+    return {"base64_runs": len(evs), "base64_accepted": sum(1 for e in evs if e["status"] == "sat" and not e["tampered"]),
+            "base64_tampered_runs": sum(1 for e in evs if e["tampered"]), "base64_validated": len(good)}
+
+
 def run(tier):
     rep = vlib.Report("C19", tier, "model_checking")
     wd = vlib.workdir("C19")
@@ -347,6 +421,9 @@ def run(tier):
     log(f"[C19] {len(cases)} expressions: {outcome}")
     pstats = parser_half(rep, tier, wd, rng, cases, results)
     log(f"[C19] in-circuit parser: {pstats}")
+    bstats = base64_half(rep, tier, wd, rng)
+    log(f"[C19] base64: {bstats}")
+    pstats.update(bstats)
     if outcome["equal"] == 0 and not rep.violations:
         raise vlib.ToolError("vacuity: no expression decided")
     rep.coverage.update({
@@ -372,6 +449,21 @@ def replay(path):
     d = json.load(open(path))
     wd = vlib.workdir("C19")
     s = d["replay"]["scenario"]
+    if s.get("b64"):
+        sp = os.path.join(wd, "replay_b64.ndjson")
+        vlib.write_ndjson(sp, [s])
+        tp = os.path.join(wd, "replay_b64_out.ndjson")
+        vlib.run_vh(["c19", "b64", sp, tp])
+        rows = vlib.read_ndjson(tp)
+        for r in rows:
+            if r["ev"] == "B64" and r.get("value") is None:
+                r["value"] = []
+        good, rejected, _ = vlib.validate_runs(rows, "Base64.tla", "Base64.cfg", "C19", "replay", start_ev="B64")
+        if rejected:
+            log(f"VIOLATION property=C19 replay={path}")
+            return 1
+        log("replay: accepted (violation not reproduced)")
+        return 0
     sp = os.path.join(wd, "replay_scen.ndjson")
     vlib.write_ndjson(sp, [s])
     ap = os.path.join(wd, "replay_aut.ndjson")
